@@ -217,7 +217,7 @@ def main() -> int:
     rep = Report(PROP)
     t = tier()
     sd = seed()
-    n = 130 if t == "quick" else 1300
+    n = 280 if t == "quick" else 1680
     for case, st, res in run_cases(run_pair, [(i, sd, 2) for i in range(n)]):
         if st != "ok":
             rep.inconclusive_because(f"pair {case[0]} failed: {res[-300:]}")
